@@ -310,6 +310,15 @@ static ZSTD_paramSwitch_e ZSTD_resolveExternalRepcodeSearch(ZSTD_paramSwitch_e v
 
 /* Returns 1 if compression parameters are such that CDict hashtable and chaintable indices are tagged.
  * If so, the tags need to be removed in ZSTD_resetCCtx_byCopyingCDict. */
+/* ZSTD_loadedDictContentSize() :
+ * nb of bytes of history that a dictionary just loaded into @ms provides, i.e. its content :
+ * not the size of the dictionary buffer, which also holds a header and entropy tables when the dictionary is in zstd format.
+ * To be read right after the load (or at any time for the match state of a CDict). */
+static size_t ZSTD_loadedDictContentSize(const ZSTD_matchState_t* ms)
+{
+    return (size_t)(ms->window.nextSrc - ms->window.base) - ms->window.dictLimit;
+}
+
 static int ZSTD_CDictIndicesAreTagged(const ZSTD_compressionParameters* const cParams) {
     return cParams->strategy == ZSTD_fast || cParams->strategy == ZSTD_dfast;
 }
@@ -2418,7 +2427,7 @@ ZSTD_resetCCtx_byAttachingCDict(ZSTD_CCtx* cctx,
     }   }
 
     cctx->dictID = cdict->dictID;
-    cctx->dictContentSize = cdict->dictContentSize;
+    cctx->dictContentSize = ZSTD_loadedDictContentSize(&cdict->matchState);   /* what sequence validation may reach into */
 
     /* copy block state */
     ZSTD_memcpy(cctx->blockState.prevCBlock, &cdict->cBlockState, sizeof(cdict->cBlockState));
@@ -2516,7 +2525,7 @@ static size_t ZSTD_resetCCtx_byCopyingCDict(ZSTD_CCtx* cctx,
     }
 
     cctx->dictID = cdict->dictID;
-    cctx->dictContentSize = cdict->dictContentSize;
+    cctx->dictContentSize = ZSTD_loadedDictContentSize(&cdict->matchState);   /* what sequence validation may reach into */
 
     /* copy block state */
     ZSTD_memcpy(cctx->blockState.prevCBlock, &cdict->cBlockState, sizeof(cdict->cBlockState));
@@ -5297,7 +5306,8 @@ static size_t ZSTD_compressBegin_internal(ZSTD_CCtx* cctx,
         FORWARD_IF_ERROR(dictID, "ZSTD_compress_insertDictionary failed");
         assert(dictID <= UINT_MAX);
         cctx->dictID = (U32)dictID;
-        cctx->dictContentSize = dictContentSize;
+        /* what sequence validation may reach into : the content, without the header of a zstd-format dictionary */
+        cctx->dictContentSize = ZSTD_loadedDictContentSize(&cctx->blockState.matchState);
     }
     return 0;
 }
@@ -6422,7 +6432,7 @@ static size_t ZSTD_CCtx_init_compressStream2(ZSTD_CCtx* cctx,
                     prefixDict.dict, prefixDict.dictSize, prefixDict.dictContentType,
                     cctx->cdict, params, cctx->pledgedSrcSizePlusOne-1) , "");
         cctx->dictID = cctx->cdict ? cctx->cdict->dictID : 0;
-        cctx->dictContentSize = cctx->cdict ? cctx->cdict->dictContentSize : prefixDict.dictSize;
+        cctx->dictContentSize = cctx->cdict ? ZSTD_loadedDictContentSize(&cctx->cdict->matchState) : prefixDict.dictSize;
         cctx->consumedSrcSize = 0;
         cctx->producedCSize = 0;
         cctx->streamStage = zcss_load;
